@@ -5,7 +5,7 @@
 From QV Require Import Common.Prelude Engine.Model Engine.Core Engine.CoreSpec Engine.CoreInvBase
   Engine.CoreInvSem Engine.Fw Engine.FwBase Engine.FwMono Engine.FwOnce Engine.FwInv Engine.FwRun
   Engine.MdlSpec Engine.MdlSem Engine.MdlBase Engine.MdlMono Engine.MdlInv Engine.MdlInvState Engine.MdlInvExec
-  Engine.MdlInvClean Engine.MdlRunBase Engine.MdlRun Engine.MdlRunAux Engine.MdlRunAll Engine.MdlCommit.
+  Engine.MdlInvClean Engine.MdlRunBase Engine.MdlRun Engine.MdlRunAux Engine.MdlRunAll Engine.MdlCommit Engine.MdlWorld.
 Open Scope Z_scope.
 
 Lemma wf_model_x_facts : forall p, wf_model_x p ->
@@ -97,6 +97,22 @@ Qed.
 Lemma BInv_of : forall sA env s, MInv p rk sA [] env s -> BInv env s.
 Proof. intros sA env s HI. eapply MInv_rebase; [| | | | | | | |exact HI]; try reflexivity. left. reflexivity. Qed.
 
+Lemma session_MSess : forall (env : menv) (s : state) sets (b : bool) s1 (rs : list sres) batch s2 batch2 (s' : state),
+  BInv env s ->
+  fold_left fsess_step sets (set_ts (set_log s []) (s_ts (set_log s []) + 1)%N, [], []) = (s1, rs, batch) ->
+  (if b then fold_left refresh_step (s_ext s1) (s1, batch) else (s1, batch)) = (s2, batch2) ->
+  MSess (set_log s []) s2 (env_step env s (OSession sets b) s') batch2 /\ s_ext s1 = s_ext s.
+Proof.
+  intros env s sets b s1 rs batch s2 batch2 s' HI0 Ef Er.
+  pose proof (sess_fold_MSess p rk Hrk Hproj _ _ _ _ _ _ _ _ _ (MSess_init p rk Hrk Hproj _ _ _ HI0) Ef) as HS1.
+  assert (Ex : s_ext s1 = s_ext s) by (rewrite (ms_ext _ _ _ _ HS1); reflexivity).
+  split; [|exact Ex]. cbn [env_step]. destruct b.
+  - pose proof (refresh_fold_MSess p rk Hrk Hproj _ (s_ext s1) _ _ _ s2 batch2 HS1) as Q. cbn [fst snd] in Q.
+    rewrite <- Ex. apply Q; [|exact Er].
+    intros e He. rewrite Ex in He. eapply (mi_ext _ _ _ _ _ _ _ HI0). exact He.
+  - inversion Er. subst. exact HS1.
+Qed.
+
 (** one operation keeps the invariant (a session must not have run out of fuel) *)
 Lemma mstep_inv : forall fuel pfuel s o s' r env,
   BInv env s -> step_f fuel pfuel p s o = (s', r) ->
@@ -107,15 +123,8 @@ Proof.
   - rewrite step_f_session_gen in H. cbv zeta in H.
     destruct (fold_left fsess_step sets (set_ts (set_log s []) (s_ts (set_log s []) + 1)%N, [], []))
       as [[s1 rs] batch] eqn:Ef.
-    pose proof (sess_fold_MSess p rk Hrk Hproj _ _ _ _ _ _ _ _ _ (MSess_init p rk Hrk Hproj _ _ _ HI0) Ef) as HS1.
     destruct (if b then fold_left refresh_step (s_ext s1) (s1, batch) else (s1, batch)) as [s2 batch2] eqn:Er.
-    assert (HS2 : MSess (set_log s []) s2 (env_step env s (OSession sets b) s') batch2).
-    { cbn [env_step]. destruct b.
-      - pose proof (refresh_fold_MSess p rk Hrk Hproj _ (s_ext s1) _ _ _ s2 batch2 HS1) as Q. cbn [fst snd] in Q.
-        assert (Ex : s_ext s1 = s_ext s) by (rewrite (ms_ext _ _ _ _ HS1); reflexivity).
-        rewrite <- Ex. apply Q; [|exact Er].
-        intros e He. rewrite Ex in He. eapply (mi_ext _ _ _ _ _ _ _ HI0). exact He.
-      - inversion Er. subst. exact HS1. }
+    destruct (session_MSess _ _ _ _ _ _ _ _ _ s' HI0 Ef Er) as [HS2 _].
     destruct (propagate pfuel (set_visited (set_stat s2 0%N) []) batch2) as [s4| | |] eqn:Ep;
       inversion H; subst; try (exfalso; eapply Hfuel; eauto; reflexivity).
     eapply (MInv_of_MSess p rk Hrk Hproj _ env); eauto.
@@ -146,7 +155,208 @@ Proof.
   - cbn in H. inversion H. subst. cbn [env_step]. unfold BInv.
     eapply MInv_rebase; [| | | | | | | |exact HI0]; try reflexivity. right. reflexivity.
 Qed.
+
+(** ** the replay of the external inputs follows the state *)
+Definition RI (s : state) (acc : xenv * list (N * Z)) : Prop :=
+  s_world s = snd acc /\ forall k i, get_info s (ext_node k) = Some i -> fst acc k = Some (i_value i).
+
+Lemma world_get_val : forall s w k, s_world s = w -> world_get s k = world_val w k.
+Proof. intros s w k <-. reflexivity. Qed.
+
+Lemma refresh_fold_log : forall l cur batch cur' batch',
+  fold_left refresh_step l (cur, batch) = (cur', batch') -> s_log cur' = rev l ++ s_log cur.
+Proof.
+  induction l as [|e r IH]; intros cur batch cur' batch' H; cbn [fold_left] in H.
+  - inversion H. reflexivity.
+  - unfold refresh_step at 2 in H. cbv zeta in H. apply IH in H. rewrite H, set_input_log. cbn [set_log s_log rev].
+    rewrite <- app_assoc. reflexivity.
+Qed.
+Lemma refresh_fold_get : forall l cur batch cur' batch' m,
+  fold_left refresh_step l (cur, batch) = (cur', batch') -> ~ In m l -> get_info cur' m = get_info cur m.
+Proof.
+  induction l as [|e r IH]; intros cur batch cur' batch' m H Hm; cbn [fold_left] in H.
+  - inversion H. reflexivity.
+  - unfold refresh_step at 2 in H. cbv zeta in H. rewrite (IH _ _ _ _ m H); [|intro K; apply Hm; right; exact K].
+    rewrite set_input_get. destruct (node_eqb_spec e m) as [->|Hne]; [exfalso; apply Hm; left; reflexivity|reflexivity].
+Qed.
+Lemma sess_fold_get : forall sets cur rs batch cur' rs' batch' m,
+  fold_left fsess_step sets (cur, rs, batch) = (cur', rs', batch') -> nkind m <> KInput -> get_info cur' m = get_info cur m.
+Proof.
+  induction sets as [|[v x] r IH]; intros cur rs batch cur' rs' batch' m H Hk; cbn [fold_left] in H.
+  - inversion H. reflexivity.
+  - rewrite fsess_step_eq in H. rewrite (IH _ _ _ _ _ _ m H Hk). rewrite set_input_get.
+    destruct (node_eqb_spec (mkNode KInput v) m) as [<-|Hne]; [exfalso; apply Hk; reflexivity|reflexivity].
+Qed.
+Lemma xref_In : forall s l xe e, In e l -> xref s l xe (nidx e) = Some (world_get s (nidx e)).
+Proof.
+  intros s l. unfold xref. induction l as [|a r IH] using rev_ind; intros xe e He; [destruct He|].
+  rewrite fold_left_app. cbn [fold_left]. apply in_app_or in He. destruct (N.eqb_spec (nidx e) (nidx a)) as [Ev|Ev].
+  - rewrite Ev. reflexivity.
+  - destruct He as [He|[->|[]]]; [apply IH; exact He|congruence].
+Qed.
+Lemma xref_notIn : forall s l xe k, (forall e, In e l -> nidx e <> k) -> xref s l xe k = xe k.
+Proof.
+  intros s l. unfold xref. induction l as [|a r IH] using rev_ind; intros xe k Hk; [reflexivity|].
+  rewrite fold_left_app. cbn [fold_left]. destruct (N.eqb_spec k (nidx a)) as [Ev|Ev].
+  - exfalso. apply (Hk a); [apply in_or_app; right; left; reflexivity|congruence].
+  - apply IH. intros e He. apply Hk. apply in_or_app. left. exact He.
+Qed.
+
+Lemma ri_step : forall fuel pfuel s o s' r env acc,
+  BInv env s -> RI s acc -> step_f fuel pfuel p s o = (s', r) ->
+  (forall sets b, o = OSession sets b -> r_out r <> RFuel) ->
+  RI s' (ext_step acc (o, r)).
+Proof.
+  intros fuel pfuel s o s' r env [xe w] HI0 [Rw Rx] H Hfuel. cbn [fst snd] in Rw, Rx. unfold ext_step.
+  destruct o as [sets b|n|wi wv|].
+  - rewrite step_f_session_gen in H. cbv zeta in H.
+    destruct (fold_left fsess_step sets (set_ts (set_log s []) (s_ts (set_log s []) + 1)%N, [], []))
+      as [[s1 rs] batch] eqn:Ef.
+    destruct (if b then fold_left refresh_step (s_ext s1) (s1, batch) else (s1, batch)) as [s2 batch2] eqn:Er.
+    destruct (session_MSess _ _ _ _ _ _ _ _ _ s' HI0 Ef Er) as [HS2 Ex].
+    destruct (propagate pfuel (set_visited (set_stat s2 0%N) []) batch2) as [s4| | |] eqn:Ep;
+      inversion H; subst s' r; try (exfalso; eapply (Hfuel sets b); reflexivity).
+    destruct (propagate_we _ _ _ _ Ep) as [Nw _]. pose proof (propagate_same _ _ _ _ Ep) as (N1 & _ & _ & N4 & _).
+    cbn [set_visited set_stat s_world s_nodes s_log] in Nw, N1, N4.
+    assert (Hl1 : s_log s1 = []).
+    { rewrite (sess_fold_log _ _ _ _ _ _ _ Ef). reflexivity. }
+    split.
+    + cbn [fst snd world_op]. rewrite Nw, (ms_world _ _ _ _ HS2). exact Rw.
+    + cbn [fst snd r_execs world_op]. intros k i Hi. unfold get_info in Hi. rewrite N1 in Hi. change (get_info s2 (ext_node k) = Some i) in Hi.
+      destruct (ms_leaf _ _ _ _ HS2 (ext_node k) i (or_intror eq_refl) Hi) as (_ & _ & _ & Hv & _).
+      unfold leaf_val in Hv. cbn [ext_node nkind nidx env_step snd] in Hv.
+      destruct b.
+      * rewrite N4, (refresh_fold_log _ _ _ _ _ Er), Hl1, app_nil_r, rev_involutive, Ex.
+        destruct (nmem (ext_node k) (s_ext s)) eqn:Em.
+        -- apply nmem_In in Em. rewrite (xref_In _ _ _ (ext_node k) Em) in Hv. cbn [ext_node nidx] in Hv.
+           rewrite <- Hv. f_equal. symmetry. apply world_get_val. exact Rw.
+        -- apply nmem_false in Em. rewrite xref_notIn in Hv.
+           2:{ intros e He Hk. apply Em. assert (Ke : nkind e = KExternal) by (eapply (mi_ext _ _ _ _ _ _ _ HI0); exact He).
+               rewrite (node_ext_eta e Ke) in He. rewrite Hk in He. exact He. }
+           assert (Hi0 : get_info s (ext_node k) = Some i).
+           { rewrite <- Hi. symmetry. rewrite (refresh_fold_get _ _ _ _ _ (ext_node k) Er); [|rewrite Ex; exact Em].
+             rewrite (sess_fold_get _ _ _ _ _ _ _ (ext_node k) Ef); [reflexivity|discriminate]. }
+           apply Rx. exact Hi0.
+      * inversion Er. subst s2 batch2. rewrite N4, Hl1. cbn [rev nmem existsb].
+        apply Rx. rewrite <- Hi. symmetry. rewrite (sess_fold_get _ _ _ _ _ _ _ (ext_node k) Ef); [reflexivity|discriminate].
+  - cbn [world_op]. unfold step_f in H.
+    destruct (query_for p None fuel [] CUser None n (set_log s [])) as [[[[o fr] ms] s1]| | |] eqn:Eq.
+    + destruct (root_query _ _ _ _ _ _ _ _ HI0 Eq) as [HI1 _].
+      pose proof (proj1 (mworld_all p fuel) _ _ _ _ _ _ _ _ _ Eq) as HW. unfold Wd in HW. cbn [set_log s_world] in HW.
+      assert (Er : r_execs r = rev (s_log s1) /\ s' = s1) by (destruct o as [[z|]|]; inversion H; subst; auto).
+      destruct Er as [Er Es']. subst s'. split; [cbn [snd]; congruence|].
+      cbn [fst]. intros k i Hi. rewrite Er.
+      destruct (mi_kind _ _ _ _ _ _ _ HI1 (ext_node k) i Hi) as [(_ & _ & Ko & _ & K5)|(K & _)]; [|discriminate].
+      unfold leaf_val in K5. cbn [ext_node nkind nidx] in K5.
+      destruct (nmem (ext_node k) (rev (s_log s1))) eqn:Em.
+      * apply nmem_In in Em. apply in_rev in Em.
+        destruct (mi_J _ _ _ _ _ _ _ HI1 _ Em) as [J|(i0 & cal & x & J1 & [t J2] & _)].
+        -- change (get_info s (ext_node k) = None) in J. pose proof (mi_W _ _ _ _ _ _ _ HI0 k J) as Wk.
+           rewrite Wk in K5. inversion K5. f_equal. symmetry. apply world_get_val. exact Rw.
+        -- exfalso. change (get_info s (ext_node k) = Some i0) in J1.
+           destruct (mi_kind _ _ _ _ _ _ _ HI0 (ext_node k) i0 J1) as [(_ & _ & K3 & _)|(K & _)]; [|discriminate].
+           rewrite K3 in J2. discriminate.
+      * apply nmem_false in Em. destruct (mi_O _ _ _ _ _ _ _ HI1 _ _ Hi) as [K|[i0 [K1 _]]].
+        -- exfalso. apply Em. apply in_rev. rewrite rev_involutive. exact K.
+        -- change (get_info s (ext_node k) = Some i0) in K1. rewrite (Rx k i0 K1).
+           destruct (mi_kind _ _ _ _ _ _ _ HI0 (ext_node k) i0 K1) as [(_ & _ & _ & _ & K6)|(K & _)]; [|discriminate].
+           unfold leaf_val in K6. cbn [ext_node nkind nidx] in K6. congruence.
+    + inversion H. subst s' r. split; [exact Rw|]. cbn [fst r_execs nmem existsb]. exact Rx.
+    + inversion H. subst s' r. split; [exact Rw|]. cbn [fst r_execs nmem existsb]. exact Rx.
+    + inversion H. subst s' r. split; [exact Rw|]. cbn [fst r_execs nmem existsb]. exact Rx.
+  - cbn in H. inversion H. subst s' r. split.
+    + cbn [snd set_world s_world set_log world_op world_set]. rewrite <- Rw. reflexivity.
+    + cbn [fst r_execs nmem existsb]. intros k i Hi. apply Rx. exact Hi.
+  - cbn in H. inversion H. subst s' r. split; [exact Rw|]. cbn [fst r_execs nmem existsb]. exact Rx.
+Qed.
+
+Lemma mrun_sound_x : forall fuel pfuel ops s env acc i n r z,
+  BInv env s -> RI s acc ->
+  (forall k sets b rk0, (k < i)%nat -> nth_error ops k = Some (OSession sets b) ->
+     nth_error (run_history_f fuel pfuel p s ops) k = Some rk0 -> r_out rk0 <> RFuel) ->
+  nth_error ops i = Some (OQuery n) ->
+  nth_error (run_history_f fuel pfuel p s ops) i = Some r ->
+  r_out r = RValue z ->
+  MSpecI p (fold_left apply_op (firstn i ops) (fst env),
+            fst (fold_left ext_step (combine (firstn (S i) ops) (firstn (S i) (run_history_f fuel pfuel p s ops))) acc)) n z.
+Proof.
+  intros fuel pfuel. induction ops as [|o rest IH]; intros s env acc i n r z HI HR Hfuel Hop Hres Hz.
+  - destruct i; discriminate.
+  - cbn [run_history_f] in Hres, Hfuel |- *. destruct (step_f fuel pfuel p s o) as [s' x] eqn:Es.
+    destruct i as [|i].
+    + cbn in Hop, Hres. inversion Hop. inversion Hres. subst o x. cbn [firstn fold_left combine].
+      assert (Hf0 : forall sets b, OQuery n = OSession sets b -> r_out r <> RFuel) by (intros; discriminate).
+      pose proof (ri_step _ _ _ _ _ _ _ _ HI HR Es Hf0) as [_ HR'].
+      unfold step_f in Es.
+      destruct (query_for p None fuel [] CUser None n (set_log s [])) as [[[[o fr] ms] s1]| | |] eqn:Eq;
+        try (inversion Es; subst; discriminate).
+      destruct (root_query _ _ _ _ _ _ _ _ HI Eq) as (HI1 & i0 & Hi0 & Hv0 & ->).
+      inversion Es. subst s' r. cbn [r_out] in Hz. inversion Hz. subst z.
+      cbn [r_out] in HR'.
+      match goal with |- MSpecI p (?a, ?b) _ _ => set (env' := (a, b)) end.
+      apply (respec p rk Hrk _ _ _ env env' s1 HI1 eq_refl) with (k0 := S (rk n)); [|lia|exact Hi0|left; exists i0; auto].
+      intros k j Hj. unfold env'. cbn [snd]. apply HR'. exact Hj.
+    + cbn [nth_error firstn fold_left combine] in *.
+      assert (Hf0 : forall sets b, o = OSession sets b -> r_out x <> RFuel).
+      { intros sets b ->. apply (Hfuel 0%nat sets b x); [lia|reflexivity|reflexivity]. }
+      pose proof (mstep_inv _ _ _ _ _ _ _ HI Es Hf0) as HI'.
+      pose proof (ri_step _ _ _ _ _ _ _ _ HI HR Es Hf0) as HR'.
+      rewrite <- (env_step_inputs env s o s').
+      eapply (IH s' (env_step env s o s') (ext_step acc (o, x)) i n r z HI' HR'); eauto.
+      intros k sets b rk0 Hk Hk1 Hk2. apply (Hfuel (S k) sets b rk0); [lia|exact Hk1|exact Hk2].
+Qed.
 End Steps.
+
+
+(** * C01 on the full model with external inputs, for every history and every fuel *)
+Theorem model_sound_x_f : model_sound_x_statement_f.
+Proof.
+  intros fuel pfuel p ops i n r z Hwf Hfuel Hop Hres Hz.
+  destruct (wf_model_x_facts p Hwf) as (rk & Hrk & Hproj & Hkeys). apply MdlSpecX_MSpecI.
+  unfold inputs_after, ext_after.
+  apply (mrun_sound_x p rk Hrk Hproj Hkeys fuel pfuel ops init_state init_env (no_ext, []) i n r z); auto.
+  - apply (MInv_init p rk noE).
+  - split; [reflexivity|]. intros k j Hj. discriminate.
+Qed.
+Theorem model_sound_x : model_sound_x_statement.
+Proof.
+  intros p ops i n r z Hwf Hfuel Hop Hres Hz.
+  rewrite run_history_is_f in Hres. rewrite run_history_is_f.
+  eapply (model_sound_x_f fuel0 4000%nat); eauto.
+  intros k sets b rk0 Hk Hk1 Hk2. rewrite <- run_history_is_f in Hk2. eapply Hfuel; eauto.
+Qed.
+
+(** without external inputs the replayed values are not looked at *)
+Lemma wf_model_g_noext : forall p, wf_model_g p ->
+  forall n b d, alookup p n = Some b -> In d (expr_reads b) -> nkind d <> KExternal.
+Proof.
+  intros p [_ Ht _ _] n b d He Hd. apply alookup_In in He. destruct (Ht n b d He Hd) as [K|[K _]].
+  - rewrite K. discriminate.
+  - intro Kx. rewrite Kx in K. discriminate.
+Qed.
+
+Theorem model_sound_g_f : model_sound_g_statement_f.
+Proof.
+  intros fuel pfuel p ops i n r z Hwf Hsc Hfuel Hop Hres Hz.
+  pose proof (model_sound_x_f fuel pfuel p ops i n r z (wf_model_x_of p Hwf) Hfuel Hop Hres Hz) as H.
+  apply MdlSpecX_MSpecI in H. apply MdlSpec_MSpecI.
+  apply (msev_noext p _ no_ext (wf_model_g_noext p Hwf)) in H; [exact H|].
+  intros d [<-|[]]. assert (Hn : op_in_scope (OQuery n)).
+  { rewrite Forall_forall in Hsc. apply Hsc. eapply nth_error_In; eauto. }
+  exact Hn.
+Qed.
+Theorem model_sound_g : model_sound_g_statement.
+Proof.
+  intros p ops i n r z Hwf Hsc Hfuel Hop Hres Hz.
+  rewrite run_history_is_f in Hres.
+  eapply (model_sound_g_f fuel0 4000%nat); eauto.
+  intros k sets b rk0 Hk Hk1 Hk2. rewrite <- run_history_is_f in Hk2. eapply Hfuel; eauto.
+Qed.
+
+Theorem model_sound_f : model_sound_statement_f.
+Proof. intros fuel pfuel p ops i n r z Hwf. apply model_sound_g_f. apply wf_model_g_of. exact Hwf. Qed.
+Theorem model_sound : model_sound_statement.
+Proof. intros p ops i n r z Hwf. apply model_sound_g. apply wf_model_g_of. exact Hwf. Qed.
 
 (** the hypothesis on fuel is needed, as for the fragments: a session whose dirty propagation
     ran out of the model's fixed fuel keeps the inputs without the dirt *)
@@ -184,7 +394,7 @@ Proof.
   { repeat constructor; cbn; discriminate. }
   specialize (H mcex_prog mcex_hist 3%nat mcex_F0 r 1 mcex_prog_wf Hsc eq_refl Hr Hz).
   apply MdlSpec_MSpecI in H.
-  assert (H2 : MSpecI mcex_prog (inputs_after (firstn 3 mcex_hist)) mcex_F0 2).
+  assert (H2 : MSpecI mcex_prog (inputs_after (firstn 3 mcex_hist), no_ext) mcex_F0 2).
   { apply MdlSpec_MSpecI. exists 5%nat. vm_compute. reflexivity. }
   pose proof (MSpecI_det _ _ _ _ _ H H2). discriminate.
 Qed.
@@ -260,6 +470,42 @@ Example mexg_run :
     RSession [SUpdated; SUpdated]; RValue 7 ].
 Proof. vm_compute. reflexivity. Qed.
 
+(** * example with external inputs: first demand, a world change that is not seen, a refresh *)
+Definition mex_X (k : N) := mkNode KExternal k.
+Definition mexx_prog : program :=
+  [ (mex_F 0, EAdd (ERead (mex_X 0)) (ERead (mex_I 0)));
+    (mex_P 0, ERead (mex_F 0));
+    (mex_N 0, EIf (ERead (mex_I 1)) (EGroup [mex_X 1; mex_P 0]) (ERead (mex_P 0))) ].
+Example mexx_prog_wf : wf_model_x mexx_prog.
+Proof.
+  split.
+  - intros n e H. mwf_cases H; reflexivity.
+  - intros n e d H Hd. mwf_cases H; min_cases Hd; (left; reflexivity) || (right; split; [reflexivity|discriminate]).
+  - intros n e d H K Hd. mwf_cases H; try discriminate K; min_cases Hd; reflexivity.
+  - exists (fun n => match nkind n with
+                     | KFirewall => 1%nat | KProjection => 2%nat | KNormal => 3%nat | _ => 0%nat end).
+    intros n e d H Hd K. mwf_cases H; min_cases Hd; try discriminate K; cbn; lia.
+Qed.
+Definition mexx_hist : list op :=
+  [ OSetWorld 0 5; OSetWorld 1 7; OSession [(0%N, 1); (1%N, 0)] false; OQuery (mex_N 0);
+    OSetWorld 0 6; OQuery (mex_N 0);
+    OSession [(1%N, 1)] false; OQuery (mex_N 0);
+    OSetWorld 1 9; OSession [] true; OQuery (mex_N 0); OQuery (mex_X 1) ].
+Example mexx_run :
+  map r_out (run_history mexx_prog init_state mexx_hist) =
+  [ RUnit; RUnit; RSession [SFresh; SFresh]; RValue 6; RUnit; RValue 6;
+    RSession [SUpdated]; RValue 13; RUnit; RSession []; RValue 16; RValue 9 ].
+Proof. vm_compute. reflexivity. Qed.
+Example mexx_spec :
+  map (fun k => mxexpr 50 mexx_prog
+                  (inputs_after (firstn k mexx_hist),
+                   ext_after (firstn (S k) mexx_hist) (firstn (S k) (run_history mexx_prog init_state mexx_hist)))
+                  (ERead (mex_N 0))) [3; 5; 7; 10]%nat
+  = [Some 6; Some 6; Some 13; Some 16].
+Proof. vm_compute. reflexivity. Qed.
+
+Print Assumptions model_sound_x_f.
+Print Assumptions model_sound_x.
 Print Assumptions model_sound_g_f.
 Print Assumptions model_sound_g.
 Print Assumptions model_sound_f.
